@@ -198,6 +198,14 @@ class Model:
         self.used_kin = [s for s in self.kin_symbols if s in expr.free_symbols]
         self.int_fn = sp.lambdify([*self.used_kin, *self.par_symbols], expr, modules="numpy", cse=True)
         self.theta_idx = [i for i, s in enumerate(self.kin_symbols) if str(s).startswith("theta")]
+        # diagnostics only: per topology, is some decaying child the "opposite helicity" state?
+        from ampform.helicity.decay import is_opposite_helicity_state
+
+        self.opposite_isobar = []
+        for group in split_topologies(reaction):
+            t = group[0].topology
+            inner = [e for e, edge in t.edges.items() if edge.ending_node_id is not None and e not in t.incoming_edge_ids]
+            self.opposite_isobar.append(any(is_opposite_helicity_state(t, e) for e in inner))
 
     def kinematics(self, P):
         """P: (N, n, 4) -> list of arrays (one per kinematic variable)."""
@@ -301,6 +309,7 @@ def run_model_case(args):
             rel = np.where(bad_nan, np.inf, rel)
             rel = np.where(ok, rel, 0.0)
             res["evaluations"] += int(ok.sum())
+            res["n_fail"] = res.get("n_fail", 0) + int((rel > TOL).sum())
             k = int(np.argmax(rel))
             res["max_rel"] = max(res["max_rel"], float(rel[k]) if np.isfinite(rel[k]) else 1e300)
             if rel[k] > TOL and (worst is None or rel[k] > worst[0]):
@@ -312,11 +321,15 @@ def run_model_case(args):
                                "intensity": float(I0[0][0])})
     if worst is not None and fam in SIGNATURE:
         rel, k, ip, label, axis, angle, i0, ir = worst
+        sig = SIGNATURE[fam]
+        if fam.startswith("multi_aligned") and not any(model.opposite_isobar):
+            # structurally different situation: every isobar is the helicity state of its node
+            sig = sig.replace("_aligned_", "_aligned_helicity_isobars_only_")
         case = make_case(name, topo, align, events[k], axis, angle, model, par_sets[ip])
         res["failures"].append({
-            "signature": SIGNATURE[fam],
+            "signature": sig,
             "what": (f"{name} topology={topo} alignment={align} ({fam}; {model.n_topologies} topologies, final spins "
-                     f"{model.fspins}): intensity {i0:.12g} -> {ir:.12g} (rel. change {rel:.3g}) under a rotation "
+                     f"{model.fspins}; topologies with an opposite-helicity isobar: {model.opposite_isobar}): intensity {i0:.12g} -> {ir:.12g} (rel. change {rel:.3g}) under a rotation "
                      f"about {label} axis {axis} by {angle} rad"),
             "case": case})
     elif worst is not None:
@@ -397,12 +410,14 @@ def wigner_checks():
         Z, _ = Dm(j, a2, 0, 0)
         if not is_zero(D * Z - Dm(j, a, b, c + a2)[0]) or not is_zero(Z * D - Dm(j, a + a2, b, c)[0]):
             fails.append(("wignerD_z_composition", f"j={j}"))
+        # r_diag / r_char: D of a z rotation is diagonal with the spin-independent character exp(-i m a)
+        n += 1
+        if not is_zero(Z - sp.diag(*[sp.exp(-sp.I * m * a2) for m in ms])):
+            fails.append(("wignerD_z_rotation_not_diagonal_character", f"j={j}"))
         # D(0,0,0) = 1
         n += 1
         if Dm(j, 0, 0, 0)[0] != sp.eye(dim):
             fails.append(("wignerD_identity", f"j={j}"))
-    # D_mul for j = 1/2 and 1 on a general product: D(R1) D(R2) = D(R1 R2) with the product rotation
-    # found through the code's own 3x3 matrices (j=1 in the spherical basis), numerically exact rationals
     return n, fails
 
 # ----------------------------------------------------------------------------- plan
@@ -433,10 +448,11 @@ def plan(tier):
         multi += ["d0_k3pi_hel", "jpsi_3pi_can", "d0_kkk_can", "lc_pkpi_hel", "jpsi_ksp_hel"]
     cases += [(n, None, "none") for n in multi if n in reactions.names()]
     # multi-topology, aligned
-    aligned = [("lc_pkpi_hel", "axisangle"), ("lc_pkpi_hel", "dpd1"), ("jpsi_ksp_hel", "axisangle"),
-               ("jpsi_ksp_hel", "dpd1"), ("jpsi_3pi_hel", "axisangle"), ("jpsi_3pi_hel", "dpd1")]
+    cases.append(("jpsi_3pi_hel", "1+2", "dpd1"))
+    aligned = [("jpsi_3pi_hel", "axisangle"), ("jpsi_3pi_hel", "dpd1"), ("lc_pkpi_hel", "dpd1")]
     if tier == "thorough":
-        aligned += [("lc_pkpi_hel", "dpd2"), ("lc_pkpi_hel", "dpd3"), ("d0_kkk_hel", "dpd1"),
+        aligned += [("lc_pkpi_hel", "axisangle"), ("jpsi_ksp_hel", "axisangle"), ("jpsi_ksp_hel", "dpd1"),
+                    ("lc_pkpi_hel", "dpd2"), ("lc_pkpi_hel", "dpd3"), ("d0_kkk_hel", "dpd1"),
                     ("d0_kkk_hel", "axisangle"), ("jpsi_ksp1750_hel", "axisangle"), ("jpsi_ksp1750_hel", "dpd1"),
                     ("lc_pkpi_can", "dpd1")]
     cases += [(n, None, a) for n, a in aligned if n in reactions.names()]
@@ -470,7 +486,7 @@ def main():
         distinct += r["distinct"]
         skipped += r["skipped_illconditioned"]
         kinds[r["family"]] = kinds.get(r["family"], 0) + r["evaluations"]
-        table.append({k: r.get(k) for k in ("key", "family", "max_rel", "evaluations", "wall", "n_ops",
+        table.append({k: r.get(k) for k in ("key", "family", "max_rel", "evaluations", "n_fail", "wall", "n_ops",
                                             "informative_not_invariant")})
         failures += r["failures"]
         if r["samples"] and len(samples) < 6 and r["family"] not in [s["family"] for s in samples]:
